@@ -9,32 +9,34 @@ Open Scope Q_scope.
 Record pen := { plam : Q; pG : env -> Q; pR : env -> Prop; pfr : label -> Prop }.
 Fixpoint sumL (ps : list pen) (x : env) : Q := match ps with [] => 0 | p :: ps' => plam p * pG p x + sumL ps' x end.
 Definition anyL (ps : list pen) (l : label) : Prop := exists p, In p ps /\ pfr p l.
-Definition pen_good (p : pen) : Prop :=
-  (forall x, boolean_env x -> 0 <= pG p x) /\
-  (forall x, boolean_env x -> pR p x -> exists x', boolean_env x' /\ agree_off (pfr p) x x' /\ pG p x' == 0) /\
-  (forall x, boolean_env x -> ~ pR p x -> 1 <= pG p x) /\
+(* dom: the assignments considered -- boolean_env for PCBO, spin_env for PCSO *)
+Definition pen_good (dom : env -> Prop) (p : pen) : Prop :=
+  (forall x, dom x -> 0 <= pG p x) /\
+  (forall x, dom x -> pR p x -> exists x', dom x' /\ agree_off (pfr p) x x' /\ pG p x' == 0) /\
+  (forall x, dom x -> ~ pR p x -> 1 <= pG p x) /\
   (forall x, pR p x \/ ~ pR p x).
 (* a penalty does not read the ancillas of the penalties after it *)
-Fixpoint later_ok (ps : list pen) : Prop :=
+Fixpoint later_ok (dom : env -> Prop) (ps : list pen) : Prop :=
   match ps with
   | [] => True
-  | p :: ps' => (forall x x', boolean_env x -> boolean_env x' -> agree_off (anyL ps') x x' -> pG p x' == pG p x) /\ later_ok ps'
+  | p :: ps' => (forall x x', dom x -> dom x' -> agree_off (anyL ps') x x' -> pG p x' == pG p x) /\ later_ok dom ps'
   end.
 
 Section WorkflowL.
+  Variable dom : env -> Prop.
   Variable f : env -> Q.
   Variable W : Q.
-  Hypothesis W_spread : forall x x', boolean_env x -> boolean_env x' -> f x - f x' <= W.
+  Hypothesis W_spread : forall x x', dom x -> dom x' -> f x - f x' <= W.
 
   Lemma agree_trans (S : label -> Prop) a b c : agree_off S a b -> agree_off S b c -> agree_off S a c.
   Proof. intros H1 H2 l Hl. rewrite (H2 l Hl). apply H1, Hl. Qed.
   Lemma agree_weaken (S S' : label -> Prop) a b : (forall l, S l -> S' l) -> agree_off S a b -> agree_off S' a b.
   Proof. intros Hs H l Hl. apply H. intros Hc. apply Hl, Hs, Hc. Qed.
 
-  Lemma zero_allL : forall ps, Forall pen_good ps -> later_ok ps ->
-    (forall p x x', In p ps -> boolean_env x -> boolean_env x' -> agree_off (anyL ps) x x' -> (pR p x <-> pR p x')) ->
-    forall x, boolean_env x -> (forall p, In p ps -> pR p x) ->
-    exists x', boolean_env x' /\ agree_off (anyL ps) x x' /\ forall p, In p ps -> pG p x' == 0.
+  Lemma zero_allL : forall ps, Forall (pen_good dom) ps -> later_ok dom ps ->
+    (forall p x x', In p ps -> dom x -> dom x' -> agree_off (anyL ps) x x' -> (pR p x <-> pR p x')) ->
+    forall x, dom x -> (forall p, In p ps -> pR p x) ->
+    exists x', dom x' /\ agree_off (anyL ps) x x' /\ forall p, In p ps -> pG p x' == 0.
   Proof.
     induction ps as [|p ps IH]; intros Hg Hl HR x Hx Hf.
     - exists x. split; [exact Hx|]. split; [apply agree_off_refl| intros p []].
@@ -52,7 +54,7 @@ Section WorkflowL.
         * intros q [<-|Hq]; [|apply Z2, Hq]. rewrite (Lp x1 x2 Hx1 Hx2 A2). exact Z1.
   Qed.
 
-  Lemma sumL_nonneg ps x : Forall pen_good ps -> (forall p, In p ps -> 0 <= plam p) -> boolean_env x -> 0 <= sumL ps x.
+  Lemma sumL_nonneg ps x : Forall (pen_good dom) ps -> (forall p, In p ps -> 0 <= plam p) -> dom x -> 0 <= sumL ps x.
   Proof.
     intros Hg Hl Hx. induction Hg as [|p ps Gp Gps IH]; simpl; [lra|].
     destruct Gp as (N & _). specialize (IH (fun q Hq => Hl q (or_intror Hq))).
@@ -60,7 +62,7 @@ Section WorkflowL.
   Qed.
   Lemma sumL_zero ps x : (forall p, In p ps -> pG p x == 0) -> sumL ps x == 0.
   Proof. induction ps as [|p ps IH]; simpl; intros H; [reflexivity|]. rewrite (H p (or_introl eq_refl)), IH; [ring| intros q Hq; apply H; right; exact Hq]. Qed.
-  Lemma sumL_ge ps x p : Forall pen_good ps -> (forall q, In q ps -> 0 <= plam q) -> boolean_env x -> In p ps -> plam p * pG p x <= sumL ps x.
+  Lemma sumL_ge ps x p : Forall (pen_good dom) ps -> (forall q, In q ps -> 0 <= plam q) -> dom x -> In p ps -> plam p * pG p x <= sumL ps x.
   Proof.
     intros Hg Hl Hx Hin. induction Hg as [|q ps Gq Gps IH]; [destruct Hin|]. simpl.
     pose proof (sumL_nonneg ps x Gps (fun r Hr => Hl r (or_intror Hr)) Hx) as S0.
@@ -69,20 +71,20 @@ Section WorkflowL.
   Qed.
 
   Theorem minimiser_feasible_optimalL ps x0 xs :
-    Forall pen_good ps -> later_ok ps ->
-    (forall x x', boolean_env x -> boolean_env x' -> agree_off (anyL ps) x x' -> f x' == f x) ->
-    (forall p x x', In p ps -> boolean_env x -> boolean_env x' -> agree_off (anyL ps) x x' -> (pR p x <-> pR p x')) ->
+    Forall (pen_good dom) ps -> later_ok dom ps ->
+    (forall x x', dom x -> dom x' -> agree_off (anyL ps) x x' -> f x' == f x) ->
+    (forall p x x', In p ps -> dom x -> dom x' -> agree_off (anyL ps) x x' -> (pR p x <-> pR p x')) ->
     (forall p, In p ps -> W < plam p) ->
-    boolean_env x0 -> (forall p, In p ps -> pR p x0) ->
-    boolean_env xs -> (forall x, boolean_env x -> f xs + sumL ps xs <= f x + sumL ps x) ->
+    dom x0 -> (forall p, In p ps -> pR p x0) ->
+    dom xs -> (forall x, dom x -> f xs + sumL ps xs <= f x + sumL ps x) ->
     (forall p, In p ps -> pR p xs) /\
-    (forall x, boolean_env x -> (forall p, In p ps -> pR p x) -> f xs <= f x) /\
+    (forall x, dom x -> (forall p, In p ps -> pR p x) -> f xs <= f x) /\
     f xs + sumL ps xs == f xs.
   Proof.
     intros Hg Hl Hf HR Hlam Hx0 HR0 Hxs Hmin.
     assert (W0 : 0 <= W) by (specialize (W_spread x0 x0 Hx0 Hx0); lra).
     assert (Lpos : forall p, In p ps -> 0 <= plam p) by (intros p Hp; specialize (Hlam p Hp); lra).
-    assert (Up : forall x, boolean_env x -> (forall p, In p ps -> pR p x) -> f xs + sumL ps xs <= f x).
+    assert (Up : forall x, dom x -> (forall p, In p ps -> pR p x) -> f xs + sumL ps xs <= f x).
     { intros x Hx Hfx. destruct (zero_allL ps Hg Hl HR x Hx Hfx) as (x' & Hx' & A & Z).
       rewrite <- (Hf x x' Hx Hx' A). eapply Qle_trans; [apply (Hmin x' Hx')|]. rewrite (sumL_zero ps x' Z). lra. }
     assert (Feas : forall p, In p ps -> pR p xs).
@@ -117,7 +119,7 @@ Lemma run_ok_pens : forall cs m m', run_ok m cs = Ok m' -> bkind (kd m) -> LP (A
   exists ps,
     Forall2 (fun c p => plam p = cc_lam c /\ pR p = cR c) cs ps /\
     (forall x, boolean_env x -> eval x (tm m') == eval x (tm m) + sumL ps x) /\
-    Forall pen_good ps /\ later_ok ps /\
+    Forall (pen_good boolean_env) ps /\ later_ok boolean_env ps /\
     (forall p l, In p ps -> pfr p l -> later (anc m) l) /\
     LP (AB (anc m')) (tm m') /\ kd m' = kd m.
 Proof.
@@ -177,7 +179,7 @@ Proof.
   assert (Hind : forall t, no_anc t -> forall x x', agree_off (anyL ps) x x' -> eval x' t == eval x t).
   { intros t Hn x x' Ha. apply ConvertProofs.eval_ext_in. intros k v i Hin Hi. apply (Ha i).
     intros Hc. destruct (Hanc i Hc) as (j & E). apply (Hn k v i j Hin Hi E). }
-  destruct (minimiser_feasible_optimalL f W HW ps x0 xs Gd Lo) as (F1 & F3 & F4).
+  destruct (minimiser_feasible_optimalL boolean_env f W HW ps x0 xs Gd Lo) as (F1 & F3 & F4).
   - intros x x' _ _ Ha. apply (Hind _ Hna x x' Ha).
   - intros p x x' Hp _ _ Ha. destruct (In_p p Hp) as (c & Hc & _ & ER). rewrite ER. unfold cR.
     assert (Hn : no_anc (cc_P c)) by (pose proof (proj1 (Forall_forall _ _) Hok c Hc) as (_ & _ & _ & Hn); exact Hn).
@@ -245,4 +247,106 @@ Proof.
   destruct (run_ok_pens cs m m' H Hk (no_anc_LP _ Hna _) Hok) as (_ & _ & _ & _ & _ & _ & _ & Kd).
   apply (workflow_seq_reduced cs m m' W x0 out deg l pairs D s H Hk Hna Hok HW Hlam Hx0 HR0 HD Hbm
            (run_ok_Inv cs m m' H HI) ltac:(rewrite Kd; exact Hl) Hpen Hs Hmin).
+Qed.
+
+(* ================= the same for PCSO: spin assignments ================= *)
+From QV.Model Require Import PCSO.
+From QV.Proofs Require Import PCSOProofs.
+
+Lemma LP_AB_ext a t x x' : LP (AB a) t -> agree_off (later a) x x' -> eval x' t == eval x t.
+Proof.
+  intros H Ha. apply ConvertProofs.eval_ext_in. intros k v i Hin Hi. apply (Ha i).
+  intros (j & Hj & E). specialize (H k v i Hin Hi j E). lia.
+Qed.
+Lemma step_later_S m m' lam G : step_ok_S m m' lam G -> ~ lam == 0 ->
+  LP (AB (anc m')) (tm m) -> LP (AB (anc m')) (tm m') ->
+  forall z z', spin_env z -> spin_env z' -> agree_off (later (anc m')) z z' -> G z' == G z.
+Proof.
+  intros S Hl Lm Lm' z z' Hz Hz' Ha.
+  pose proof (S z Hz) as E1. pose proof (S z' Hz') as E2.
+  pose proof (LP_AB_ext _ _ z z' Lm Ha) as I1. pose proof (LP_AB_ext _ _ z z' Lm' Ha) as I2.
+  assert (lam * G z' == lam * G z) by lra. apply (Qmult_inj_l _ _ lam Hl). exact H.
+Qed.
+
+Fixpoint run_ok_S (m : model) (cs : list ccall) : result model :=
+  match cs with
+  | [] => Ok m
+  | c :: cs' => bind (pcso_add (cc_rel c) m (cc_P c) (cc_lam c) (cc_log c) (cc_bounds c))
+                     (fun '(m', w, _) => match w with WUnsat => Err ValueError | _ => run_ok_S m' cs' end)
+  end.
+
+Lemma run_ok_S_pens : forall cs m m', run_ok_S m cs = Ok m' -> kd m = KPcso -> LP (AB (anc m)) (tm m) -> Forall call_ok_S cs ->
+  exists ps,
+    Forall2 (fun c p => plam p = cc_lam c /\ pR p = cR c) cs ps /\
+    (forall z, spin_env z -> eval z (tm m') == eval z (tm m) + sumL ps z) /\
+    Forall (pen_good spin_env) ps /\ later_ok spin_env ps /\
+    (forall p l, In p ps -> pfr p l -> later (anc m) l) /\
+    LP (AB (anc m')) (tm m').
+Proof.
+  induction cs as [|c cs IH]; intros m m' H Hk Hm Hok; cbn [run_ok_S] in H.
+  - injection H as <-. exists []. split; [constructor|]. split; [intros z _; simpl; ring|]. split; [constructor|].
+    split; [exact I|]. split; [intros p l []| exact Hm].
+  - destruct (pcso_add (cc_rel c) m (cc_P c) (cc_lam c) (cc_log c) (cc_bounds c)) as [[[m1 w] t]|] eqn:E; cbn [bind] in H; [|discriminate].
+    assert (Hw : w <> WUnsat) by (intros ->; discriminate).
+    assert (H1 : run_ok_S m1 cs = Ok m') by (destruct w; [exact H| contradiction| exact H]). clear H.
+    inversion Hok as [|? ? (Hl & Hi & Hb & Hn) Hok']; subst.
+    assert (Hlam : ~ cc_lam c == 0) by (intros Hz; rewrite Hz in Hl; apply (Qlt_irrefl 0), Hl).
+    destruct (pcso_add_spec _ _ _ _ _ _ _ _ _ E Hk Hlam Hi Hb Hn) as (G & Hs & _ & Sok & K1 & _ & A1 & NN & PR).
+    destruct (PR Hw) as (PN & PS & PU).
+    destruct (pcso_add_AB _ _ _ _ _ _ _ _ _ E Hm (no_anc_LP _ Hn _)) as [L1 _].
+    destruct (IH m1 m' H1 K1 L1 Hok') as (ps & F2 & V & Gd & Lo & Fr & Lm').
+    set (p0 := {| plam := cc_lam c; pG := G; pR := cR c; pfr := fresh_lbl (anc m) (anc m1) |}).
+    exists (p0 :: ps). split; [constructor; [split; reflexivity| exact F2]|]. split.
+    { intros z Hz. rewrite (V z Hz), (Sok z Hz). simpl. ring. }
+    split.
+    { constructor; [|exact Gd]. split; [exact PN|]. split; [|split].
+      - intros z Hz HR. destruct (PS z Hz HR) as (z' & B1 & B2 & B3). exists z'. auto.
+      - exact PU.
+      - intros z. apply rel_prop_dec. }
+    split.
+    { split; [|exact Lo]. intros z z' Hz Hz' Ha.
+      apply (step_later_S m m1 (cc_lam c) G Sok Hlam (AB_mono _ _ _ A1 Hm) L1 z z' Hz Hz').
+      intros l Hnl. apply Ha. intros (q & Hq & Hfl). apply Hnl. apply (Fr q l Hq Hfl). }
+    split; [|exact Lm'].
+    intros q l [<-|Hq] Hfl; [apply (fresh_later _ _ _ Hfl)| apply (later_mono _ _ _ A1), (Fr q l Hq Hfl)].
+Qed.
+
+Theorem workflow_seq_S cs m m' W z0 zs :
+  run_ok_S m cs = Ok m' -> kd m = KPcso -> no_anc (tm m) -> Forall call_ok_S cs ->
+  let f := fun z => eval z (tm m) in
+  (forall z z', spin_env z -> spin_env z' -> f z - f z' <= W) ->
+  (forall c, In c cs -> W < cc_lam c) ->
+  spin_env z0 -> (forall c, In c cs -> cR c z0) ->
+  spin_env zs -> (forall z, spin_env z -> eval zs (tm m') <= eval z (tm m')) ->
+  (forall c, In c cs -> cR c zs) /\
+  (forall z, spin_env z -> (forall c, In c cs -> cR c z) -> f zs <= f z) /\
+  eval zs (tm m') == f zs.
+Proof.
+  intros H Hk Hna Hok f HW Hlam Hz0 HR0 Hzs Hmin.
+  destruct (run_ok_S_pens cs m m' H Hk (no_anc_LP _ Hna _) Hok) as (ps & F2 & V & Gd & Lo & Fr & _).
+  assert (In_c : forall c, In c cs -> exists p, In p ps /\ plam p = cc_lam c /\ pR p = cR c).
+  { clear -F2. induction F2 as [|c p cs ps [A B] F IH]; intros c0 Hin; [destruct Hin|].
+    destruct Hin as [<-|Hin]; [exists p; split; [left; reflexivity| auto]|]. destruct (IH c0 Hin) as (q & Hq & Hr). exists q. split; [right; exact Hq| exact Hr]. }
+  assert (In_p : forall p, In p ps -> exists c, In c cs /\ plam p = cc_lam c /\ pR p = cR c).
+  { clear -F2. induction F2 as [|c p cs ps [A B] F IH]; intros p0 Hin; [destruct Hin|].
+    destruct Hin as [<-|Hin]; [exists c; split; [left; reflexivity| auto]|]. destruct (IH p0 Hin) as (q & Hq & Hr). exists q. split; [right; exact Hq| exact Hr]. }
+  assert (Hanc : forall l, anyL ps l -> exists j, l = anc_label j).
+  { intros l (p & Hp & Hfl). destruct (Fr p l Hp Hfl) as (j & _ & E). exists j. exact E. }
+  assert (Hind : forall t, no_anc t -> forall z z', agree_off (anyL ps) z z' -> eval z' t == eval z t).
+  { intros t Hn z z' Ha. apply ConvertProofs.eval_ext_in. intros k v i Hin Hi. apply (Ha i).
+    intros Hc. destruct (Hanc i Hc) as (j & E). apply (Hn k v i j Hin Hi E). }
+  destruct (minimiser_feasible_optimalL spin_env f W HW ps z0 zs Gd Lo) as (F1 & F3 & F4).
+  - intros z z' _ _ Ha. apply (Hind _ Hna z z' Ha).
+  - intros p z z' Hp _ _ Ha. destruct (In_p p Hp) as (c & Hc & _ & ER). rewrite ER. unfold cR.
+    assert (Hn : no_anc (cc_P c)) by (pose proof (proj1 (Forall_forall _ _) Hok c Hc) as (_ & _ & _ & Hn); exact Hn).
+    pose proof (Hind _ Hn z z' Ha) as E. destruct (cc_rel c); simpl; rewrite E; tauto.
+  - intros p Hp. destruct (In_p p Hp) as (c & Hc & EL & _). rewrite EL. apply Hlam, Hc.
+  - exact Hz0.
+  - intros p Hp. destruct (In_p p Hp) as (c & Hc & _ & ER). rewrite ER. apply HR0, Hc.
+  - exact Hzs.
+  - intros z Hz. unfold f. rewrite <- (V zs Hzs), <- (V z Hz). apply Hmin, Hz.
+  - split; [|split].
+    + intros c Hc. destruct (In_c c Hc) as (p & Hp & _ & ER). rewrite <- ER. apply F1, Hp.
+    + intros z Hz Hfz. apply F3; [exact Hz|]. intros p Hp. destruct (In_p p Hp) as (c & Hc & _ & ER). rewrite ER. apply Hfz, Hc.
+    + rewrite (V zs Hzs). unfold f in F4. exact F4.
 Qed.
